@@ -365,7 +365,11 @@ type stats struct {
 	Cases     int            `json:"cases"`
 	Lines     int            `json:"lines"`
 	Distinct  int            `json:"distinct_state_op_pairs"`
+	Recopies  int            `json:"second_copies_into_the_same_destination"`
 }
+
+// sts0: the run's statistics (oneCopy is also called from goroutines of `conc` ops: counted approximately)
+var sts0 = &stats{}
 
 func class(tok string) string {
 	p := strings.SplitN(tok, ":", 3)
@@ -412,6 +416,17 @@ func oneCopy(st *state, w []string) (res, src0, d0, d1, same, pres, pd1, psame s
 	same = "0"
 	if rd.val(src.Elem()) == src0 {
 		same = "1"
+	}
+	// the destination is the caller's from now on: copying ANOTHER source into the same destination must not reach
+	// back into the first source (a destination that shares a pointee with its source would)
+	if same == "1" && res == "ok" && st.h != nil && !dst.IsNil() {
+		n2, _ := strconv.ParseUint(sseed, 10, 64)
+		src2 := newValue(st.p.src, strconv.FormatUint(n2+0x9e3779b9, 10))
+		vlib.Catch(func() { _ = st.h.CopyTo(src2, dst, nil) })
+		if rd.val(src.Elem()) != src0 {
+			same = "0"
+		}
+		sts0.Recopies++
 	}
 	// the pure recursive CopyTo on equal inputs
 	psrc := newValue(st.p.src, sseed)
@@ -687,6 +702,7 @@ func main() {
 		st := &stats{Ops: map[string]int{}, Results: map[string]int{}, Pure: map[string]int{}, Builds: map[string]int{},
 			TrieNodes: map[string]int{}, Agree: map[string]int{}}
 		run(vlib.ReadLines(*opsF), out, st)
+		st.Recopies = sts0.Recopies
 		if *statsF != "" {
 			b, _ := json.MarshalIndent(st, "", " ")
 			os.WriteFile(*statsF, b, 0o644)
